@@ -8,7 +8,7 @@
 Exit 0: the property held on everything explored.  Exit 1 + "VIOLATION property=<id> replay=<path>".
 See DESIGN.md §2.4/§2.5.
 """
-import sys, os, json, time, subprocess, hashlib, re, fcntl, importlib, random, shutil, itertools
+import sys, os, json, time, subprocess, hashlib, re, fcntl, importlib, random, shutil, itertools, tempfile
 
 ROOT = os.path.dirname(os.path.abspath(__file__))
 COQ = os.path.join(ROOT, "coq")
@@ -277,7 +277,14 @@ def impl_run(lines, env=None):
     e = dict(os.environ)
     if env:
         e.update(env)
-    return run_sharded(os.path.join(BUILD, "harness"), ["run"], lines, NCPU, env=e, timeout=3000)
+    # scratch files of the harness (target files, bookmark databases) live in a directory of this run that is
+    # removed afterwards even when a harness process is killed or dies
+    tmp = tempfile.mkdtemp(prefix="klogverif-run-")
+    e["TMPDIR"] = tmp
+    try:
+        return run_sharded(os.path.join(BUILD, "harness"), ["run"], lines, NCPU, env=e, timeout=3000)
+    finally:
+        shutil.rmtree(tmp, ignore_errors=True)
 
 
 # ----------------------------------------------------------------------------- findings
